@@ -78,6 +78,8 @@ try:
         t0 = time.time()
         rc, out = sh(["./check", c, tier], cwd="/verif", e=dict(env, VERIF_REPO=wt), timeout=7200)
         keys = re.findall(r"violation class (\S+) x(\d+)", out)
+        if not keys and re.search(r"^VIOLATION .*process-crash", out, re.M):
+            keys = [("process-crash", "1")]
         res["checks"][c] = {"exit": rc, "violation_classes": keys[:12], "wall_s": round(time.time() - t0, 1), "harness": re.findall(r"HARNESS-FAILURE.*", out)[:3]}
 finally:
     sh(["git", "-C", "/repo", "worktree", "remove", "--force", wt])
